@@ -5,6 +5,7 @@ package server
 import (
 	"bytes"
 	"fmt"
+	"math"
 	"strconv"
 	"strings"
 	"time"
@@ -99,6 +100,13 @@ func (s *Server) parseArea(ovs []string, doClip bool) (vs []string, o geojson.Ob
 		if b1 == b2 {
 			err = fmt.Errorf("equal bearings (%s == %s), use CIRCLE instead", sb1, sb2)
 			return
+		}
+		// The sector construction loops forever on NaN/Inf input.
+		for i, v := range []float64{lat, lon, meters, b1, b2} {
+			if math.IsNaN(v) || math.IsInf(v, 0) {
+				err = errInvalidArgument([]string{slat, slon, smeters, sb1, sb2}[i])
+				return
+			}
 		}
 
 		origin := sectr.Point{Lng: lon, Lat: lat}
